@@ -135,6 +135,10 @@ Def(nm) ==
     [] nm = "TStr" -> Str
     [] nm = "TVecI" -> Vec(I32)
     [] nm = "TPtrS" -> Uptr(Str)
+    [] nm = "TMk" -> Map(Agg(<<Fd(1, Vec(I32), <<>>)>>), I32)      \* top-level maps whose key / mapped type caches sizes
+    [] nm = "TVMk" -> Vec(Map(Agg(<<Fd(1, Vec(I32), <<>>)>>), I32))     \* the same map behind wrappers that forward SERIALIZED_SIZE_CACHED
+    [] nm = "TPMk" -> Uptr(Map(Agg(<<Fd(1, Vec(I32), <<>>)>>), I32))
+    [] nm = "TMv" -> Map(I32, Agg(<<Fd(1, Vec(I32), <<>>)>>))
     [] nm = "Sc" -> Agg(<<Fd(1, Bool, Z), Fd(2, I8, Z), Fd(3, U16, Z), Fd(4, I32, Z), Fd(5, U32, Z), Fd(6, I64, Z),
                           Fd(7, U64, Z), Fd(8, Enum, Z), Fd(9, F32, F0), Fd(10, F64, D0)>>)
     [] nm = "St" -> TSt
